@@ -2,6 +2,7 @@
 from __future__ import annotations
 
 import copy
+import re
 
 from hypothesis import strategies as st
 
@@ -65,6 +66,12 @@ def _file_body(draw, heads, globals_all, file_labels, depth, files_left, marker)
         for _ in range(draw(st.integers(0, 2))):
             marker['n'] += 1
             body.insert(draw(st.integers(0, len(body))), {'t': 'data', 'd': '.byte', 'vals': [['num', marker['n'] & 0xFF, 'hex$']]})
+        if draw(st.integers(0, 3)) == 0:
+            # a constant, global or file-scoped, in the middle of a region: it is no label and leaves the region open
+            marker['nk'] = marker.get('nk', 0) + 1
+            kname = draw(st.sampled_from(['_kf', 'kg'])) + str(marker['nk']) + ('' if depth == 0 else 'i' * depth + str(len(files_left)))
+            body.insert(draw(st.integers(0, len(body))), {'t': 'const', 'name': kname, 'e': ['num', draw(st.integers(0, 99)), 'dec'],
+                                                           'eq': draw(st.sampled_from(['=', 'EQU']))})
         if draw(st.integers(0, 3)) == 0:
             # a non-local label in a block that is not compiled: it defines nothing and opens no region
             j = draw(st.integers(0, len(body)))
@@ -134,7 +141,7 @@ def _cases(draw, tier):
         items = inject(draw, items, fault)
         if items is None:
             return {'skip': 'fault not applicable to this program'}
-    return {'isa': cfg, 'items': items, 'fault': fault, 'lo': 0, 'fill': 0}
+    return {'isa': cfg, 'items': items, 'fault': fault, 'lo': 0, 'fill': 0, 'join_labels': draw(st.integers(0, 3)) == 0}
 
 
 def _files(items, name='main.asm', out=None):
@@ -303,6 +310,16 @@ def execute(case, ctx):
             lo, hi, want = 0, 8, None
     except R.Unspecified as u:
         return Outcome(classes=['unspecified:' + str(u).split(':')[0]], evals=0, excluded=['unspecified: ' + str(u).split(':')[0]])
+    if case.get('join_labels'):
+        # labels written in front of what follows them on one line (several in a row too): the same program
+        for k in [k for k in files if k.endswith('.asm')]:
+            out = []
+            for line in files[k].split('\n'):
+                if out and re.fullmatch(r'[._\w]+:(?: [._\w]+:)*', out[-1]) and line and not line.startswith(('#', ';')):
+                    out[-1] = out[-1] + ' ' + line
+                else:
+                    out.append(line)
+            files[k] = '\n'.join(out)
     argv = ['compile', '-c', fname, '-o', 'out.bin', '-s', str(lo), '-e', str(hi), 'main.asm']
     res = runner.run_forked(argv, files)
     fault = case.get('fault')
@@ -320,7 +337,8 @@ def execute(case, ctx):
         if res.outputs.get('out.bin') != want:
             findings.append(Finding('C06/reference-resolved-to-wrong-definition', detail))
     nt = bool(fault) or multi_scope_reference(case['items'])
-    classes = ['model:' + verdict, 'outcome:' + res.klass, 'fault:' + str(fault), 'files:%d' % len(detail['sources'])]
+    classes = ['model:' + verdict, 'outcome:' + res.klass, 'fault:' + str(fault), 'files:%d' % len(detail['sources'])] + \
+              (['labels-joined-with-the-following-line'] if case.get('join_labels') else [])
     if verdict != 'accepted':
         classes.append('reject-reason:' + lay.split(' ')[0] + ' ' + ' '.join(lay.split(' ')[1:3]))
     sample = {'sources': detail['sources'], 'fault': fault, 'model': detail['model']}
